@@ -34,7 +34,7 @@ NOW_DTN_MS = (1767225600 - 946684800) * 1000
 def _combo_cases():
     out = []
     for prev, hops, age, unknown, crc, numbering, ctime, lifetime in itertools.product(
-            ('none', 'other', 'self', 'two'), (0, 1, 2), (0, 1, 2), (0, 1, 2), (0, 1, 2), ('dense', 'sparse', 'permuted'),
+            ('none', 'other', 'self', 'two'), (0, 1, 2), (0, 1, 2, 3), (0, 1, 2), (0, 1, 2), ('dense', 'sparse', 'permuted'),
             ('nonzero', 'zero'), (1000, 0)):
         if ctime == 'zero' and not age:
             continue  # a bundle without a clock must carry an age block
@@ -63,8 +63,8 @@ def cases(tier, seed):
 
 def build(combo, rng):
     ''' Received bundle (dict form) for one combination. '''
-    nums = {'dense': [2, 3, 4, 5, 6, 7, 8, 9], 'sparse': [7, 24, 255, 256, 70000, 2 ** 33, 99, 23],
-            'permuted': [9, 3, 8, 2, 6, 4, 5, 7]}[combo['numbering']]
+    nums = {'dense': [2, 3, 4, 5, 6, 7, 8, 9, 10], 'sparse': [7, 24, 255, 256, 70000, 2 ** 33, 99, 23, 65536],
+            'permuted': [9, 3, 8, 2, 6, 4, 5, 7, 10]}[combo['numbering']]
     nums = list(nums)
     blocks = []
     crc = combo['crc']
